@@ -434,7 +434,7 @@ inline constexpr double integrate_absolute_polynomial(double t0, double t1, doub
   if (std::abs(A) < 1e-9 && std::abs(B) > 1e-9) {
     // linear non-constant function
     mid1 = std::clamp(-C / B, t0, t1);
-  } else if (std::abs(A) > 1e-9) {
+  } else if (std::abs(A) >= 1e-9) {
     // quadratic function
     const double res = B * B / (4 * A * A) - C / A;
 
